@@ -29,7 +29,10 @@ CHECKERS = os.environ.get("CHECKERS_HOME", VERIF)
 
 def props_available():
     man = json.load(open(os.path.join(CHECKERS, "MANIFEST.json")))
-    return [c["property_id"] for c in man["checks"]]
+    props = [c["property_id"] for c in man["checks"]]
+    if os.environ.get("RUN_PROPS"):  # restrict the checks that are run (quick re-runs after a rule change)
+        props = [p for p in props if p in os.environ["RUN_PROPS"].split(",")]
+    return props
 
 
 def run_one(seed_dir, tier, props):
@@ -93,7 +96,7 @@ def main():
         lines.append("| {} | {} | {} | {} | {} |".format(name, target, "yes" if hit else ("other" if anyhit else ("n/b" if target not in props else "NO")), fired, inc))
     lines.append("")
     lines.append("{} of {} seeded changes raise a VIOLATION in at least one check.".format(caught, len(out)))
-    open(os.path.join(VERIF, "seeded", "RESULTS.md" if CHECKERS == VERIF else "RESULTS-frozen.md"), "w").write("\n".join(lines) + "\n")
+    open(os.path.join(VERIF, "seeded", os.environ.get("RESULTS_OUT") or ("RESULTS.md" if CHECKERS == VERIF else "RESULTS-frozen.md")), "w").write("\n".join(lines) + "\n")
     print("\n".join(lines))
 
 
